@@ -44,6 +44,7 @@ struct Args {
     evidence: bool,
     out_dir: String,
     kf_retire: bool,
+    world: Option<String>,
 }
 
 fn parse_args() -> Args {
@@ -59,6 +60,7 @@ fn parse_args() -> Args {
         evidence: true,
         out_dir: "/verif".into(),
         kf_retire: true,
+        world: None,
     };
     let mut it = std::env::args().skip(1);
     a.cmd = it.next().unwrap_or_default();
@@ -71,6 +73,7 @@ fn parse_args() -> Args {
             "--jobs" => a.jobs = it.next().unwrap().parse().unwrap(),
             "--no-evidence" => a.evidence = false,
             "--no-kf-retire" => a.kf_retire = false,
+            "--world" => a.world = Some(it.next().unwrap()),
             "--no-big" => vecworld::gen::NO_BIG.store(true, std::sync::atomic::Ordering::Relaxed),
             "--announce" => ANNOUNCE.store(true, std::sync::atomic::Ordering::Relaxed),
             "--out" => a.out_dir = it.next().unwrap(),
@@ -274,7 +277,7 @@ fn main() {
             }
             let half = |a: &Args| -> Args {
                 // two run families share the budget
-                Args { cmd: a.cmd.clone(), prop: a.prop.clone(), tier: a.tier.clone(), seed: a.seed, runs: a.runs.map(|r| r / 2), secs: a.secs.map(|s| (s / 2).max(1)), jobs: a.jobs, file: None, evidence: a.evidence, out_dir: a.out_dir.clone(), kf_retire: a.kf_retire }
+                Args { cmd: a.cmd.clone(), prop: a.prop.clone(), tier: a.tier.clone(), seed: a.seed, runs: a.runs.map(|r| r / 2), secs: a.secs.map(|s| (s / 2).max(1)), jobs: a.jobs, file: None, evidence: a.evidence, out_dir: a.out_dir.clone(), kf_retire: a.kf_retire, world: None }
             };
             match a.prop.as_str() {
                 "C16" => {
@@ -357,7 +360,23 @@ fn main() {
                 if ANNOUNCE.load(std::sync::atomic::Ordering::Relaxed) {
                     eprintln!("run {run}");
                 }
+                let world = a.world.clone().unwrap_or_default();
                 let v = match a.prop.as_str() {
+                    "C07" if world == "vector-tx-enumeration" => {
+                        let c = vecworld::txenum::TxEnumCheck;
+                        let mut rng = rng::Rng::for_run(a.seed, c.domain(), run);
+                        c.exec(&c.gen(&mut rng)).violation
+                    }
+                    p if world == "observable" && (OBS_PROPS.contains(&p) || p == "C20") => {
+                        let c = obsworld::check::ObsCheck { prop: p.into() };
+                        let mut rng = rng::Rng::for_run(a.seed, c.domain(), run);
+                        c.exec(&c.gen(&mut rng)).violation
+                    }
+                    _ if world == "async-contention" => {
+                        let c = obsworld::acheck::AsyncCheck;
+                        let mut rng = rng::Rng::for_run(a.seed, c.domain(), run);
+                        c.exec(&c.gen(&mut rng)).violation
+                    }
                     p if VEC_PROPS.contains(&p) => {
                         let c = vecworld::check::VecCheck { prop: p.into(), kf_retire: true };
                         let mut rng = rng::Rng::for_run(a.seed, c.domain(), run);
